@@ -170,6 +170,21 @@ def check(idx: Index, rep: Report, tier: str) -> str:
     else:
         r.fail(f.fq + ":blocks", Finding("C23.R3", f.fq, "blocks-precreated", "blocks are no longer all created before conversion", f.loc))
 
+    r = rep.rule("C23.R4", "operation converters emit at the builder's current position: no converter of convert_op.py moves the insertion point (instruction order = operation order, so operands dominate and per-iteration effects stay per iteration)", floor=10)
+    MOVERS = {"goto_entry_block", "goto_block", "position_at_start", "position_at_end", "position_before", "position_after"}
+    n_conv = 0
+    for q, fi in idx.module(CO).functions.items():
+        if not (fi.name.startswith("_convert_") or fi.name == "convert_op"):
+            continue
+        n_conv += 1
+        mv = [c for c in calls_in(fi.node, local=False) if call_attr(c) in MOVERS]
+        if mv:
+            r.fail(fi.fq, Finding("C23.R4", fi.fq, f"moves-insertion-point:{call_attr(mv[0])}", f"`{unparse(mv[0])}` emits the instruction somewhere else than at the operation's position: an alloca hoisted to the entry block no longer yields a fresh slot per loop iteration and may use a size that does not dominate it (LLVM rejects the module)", f"{CO}:{mv[0].lineno}"))
+        else:
+            r.ok(fi.fq, None)
+    if n_conv < 10:
+        raise AnalysisError(f"only {n_conv} converters found in {CO}")
+
     return (
         "Table agreement of the LLVM translation tables with the llvm dialect's own operation names (binary ops, casts, "
         "intrinsics, argument attributes), predicate tables against the meaning of the mnemonics, dispatcher coverage and phi "
